@@ -21,6 +21,7 @@ type boxGen struct {
 	big     bool // include astronomically large blocks (C11)
 	pinned  bool // C18: several pools pinned to one namespace + a selector-pinned pool
 	tight   bool // C07: very few addresses, one dominant sharing key, two ports: exhaustion and port conflicts everywhere
+	hot     func() string // key of the service whose status write failed last ("" = none)
 }
 
 func (g *boxGen) genPools() []metallbv1beta1.IPAddressPool {
@@ -138,16 +139,26 @@ func (g *boxGen) setShareKey(svc *v1.Service) {
 	if k == "" {
 		return
 	}
-	if g.r.Chance(1, 4) {
+	switch g.r.Intn(8) {
+	case 0, 1:
 		svc.Annotations[DeprecatedAnnotationAllowSharedIP] = k
-	} else {
+	case 2: // both spellings with different values: the stable one counts
+		svc.Annotations[AnnotationAllowSharedIP] = k
+		svc.Annotations[DeprecatedAnnotationAllowSharedIP] = vfPick(g.r, []string{"k1", "k2", "k3"})
+	default:
 		svc.Annotations[AnnotationAllowSharedIP] = k
 	}
 }
 
 func (g *boxGen) setPolicy(svc *v1.Service) {
-	sel := vfPick(g.r, []map[string]string{nil, {"app": "x"}, {"app": "x"}, {"app": "y"}})
+	sel := vfPick(g.r, []map[string]string{nil, {"app": "x"}, {"app": "x"}, {"app": "y"}, {"app": "x", "role": "front", "zone": "a", "rel": "r1"}})
 	svc.Spec.Selector = sel
+	if g.r.Chance(1, 6) {
+		// Local services behind the same (several-label) selector: the pairs that may share an address
+		svc.Spec.Selector = map[string]string{"app": "x", "role": "front", "zone": "a", "rel": "r1"}
+		svc.Spec.ExternalTrafficPolicy = v1.ServiceExternalTrafficPolicyTypeLocal
+		return
+	}
 	if g.r.Chance(1, 3) {
 		svc.Spec.ExternalTrafficPolicy = v1.ServiceExternalTrafficPolicyTypeLocal
 	} else {
@@ -188,6 +199,17 @@ func (g *boxGen) setRequest(svc *v1.Service, s *boxStore) {
 		for _, f := range fams {
 			ips = append(ips, g.pickIP(s, f))
 		}
+		if held := svc.Status.LoadBalancer.Ingress; len(held) > 0 && g.r.Chance(1, 3) {
+			// the request names what the service already holds (and, for a dual-stack service holding
+			// one address, an address of the other family besides it)
+			for i, f := range fams {
+				for _, ing := range held {
+					if _, hf, ok := vfCanonIP(ing.IP); ok && hf == f {
+						ips[i] = ing.IP
+					}
+				}
+			}
+		}
 		if len(ips) == 2 && g.r.Chance(1, 5) {
 			ips = ips[:1]
 		}
@@ -210,9 +232,13 @@ func (g *boxGen) setRequest(svc *v1.Service, s *boxStore) {
 			names = append(names, s.Pools[k].Name, s.Pools[k].Name)
 		}
 		val := vfPick(g.r, names)
-		if g.r.Chance(1, 4) {
+		switch g.r.Intn(8) {
+		case 0, 1:
 			svc.Annotations[DeprecatedAnnotationAddressPool] = val
-		} else {
+		case 2: // both spellings with different values: the stable one counts
+			svc.Annotations[AnnotationAddressPool] = val
+			svc.Annotations[DeprecatedAnnotationAddressPool] = vfPick(g.r, names)
+		default:
 			svc.Annotations[AnnotationAddressPool] = val
 		}
 		if g.r.Chance(1, 4) { // pool + explicit address
@@ -285,6 +311,12 @@ func (g *boxGen) pickSvc(s *boxStore) *v1.Service {
 	ks := vfSortedKeys(s.Services)
 	if len(ks) == 0 {
 		return nil
+	}
+	if g.hot != nil {
+		// hostile timing: aim at the service whose status write has just failed (its retry is pending)
+		if h := g.hot(); h != "" && s.Services[h] != nil && g.r.Chance(1, 2) {
+			return s.Services[h].DeepCopy()
+		}
 	}
 	return s.Services[vfPick(g.r, ks)].DeepCopy()
 }
